@@ -91,6 +91,8 @@ class HashTable:
         the key dtype cannot represent is not a key (it is replaced by 0 and masked out).
         """
         keys = np.asanyarray(keys)
+        if keys.size == 0:
+            keys = keys.astype(self._key_dtype)  # an empty list has no integer dtype of its own
         representable = np.ones(keys.shape, dtype=bool)
         if keys.dtype != self._key_dtype and keys.dtype.kind in "iu" and self._key_dtype.kind in "iu":
             info = np.iinfo(self._key_dtype)
